@@ -215,6 +215,10 @@ func handleLeafValue(nodemap map[string]interface{}, value *configapi.TypedValue
 		(nodemap)[pathelems[0]] = (*configapi.TypedBool)(value).Bool()
 	case configapi.ValueType_BYTES:
 		(nodemap)[pathelems[0]] = (*configapi.TypedBytes)(value).ByteArray()
+		if len((*configapi.TypedBytes)(value).ByteArray()) == 0 {
+			// an empty binary value (nil once it has been through a store) is the empty string, not null
+			(nodemap)[pathelems[0]] = []byte{}
+		}
 	case configapi.ValueType_LEAFLIST_STRING:
 		(nodemap)[pathelems[0]] = (*configapi.TypedLeafListString)(value).List()
 	case configapi.ValueType_LEAFLIST_INT:
